@@ -406,25 +406,6 @@ Ltac step eqn :=
     HS : SS _, HEL : SEL _, HELL : SELL _, HML : SML _ |- _ =>
     facts HE HL HP HI HM HG HIf HB HBL HS HEL HELL HML
   end;
-  (split; [solve_le|]);
-  (let Hc := fresh "Hc" in intros Hc); cleans; rewrite eqn; run; try reflexivity.
+  (split; [solve_le | (let Hc := fresh "Hc" in intros Hc); cleans; rewrite eqn; run; try reflexivity]).
 
-Lemma SL_step f : SAll f -> SL (S f).
-Proof. unfold SL. step exprLoop_S. all: idtac "SL". Show. Abort.
-Lemma SP_step f : SAll f -> SP (S f).
-Proof. unfold SP. step prefixFn_S. all: idtac "SP". Show. Abort.
-Lemma SI_step f : SAll f -> SI (S f).
-Proof. unfold SI. step infixFn_S. all: idtac "SI". Show. Abort.
-Lemma SG_step f : SAll f -> SG (S f).
-Proof. unfold SG. step parseGroupedExpression_S. all: idtac "SG". Show. Abort.
-Lemma SIf_step f : SAll f -> SIf (S f).
-Proof. unfold SIf. step parseIfExpression_S. all: idtac "SIf". Show. Abort.
-Lemma SB_step f : SAll f -> SB (S f).
-Proof. unfold SB. step parseBlockStatement_S. all: idtac "SB". Show. Abort.
-Lemma SEL_step f : SAll f -> SEL (S f).
-Proof. unfold SEL. step parseExpressionList_S. all: idtac "SEL". Show. Abort.
-Lemma SELL_step f : SAll f -> SELL (S f).
-Proof. unfold SELL. step exprListLoop_S. all: idtac "SELL". Show. Abort.
-Lemma SML_step f : SAll f -> SML (S f).
-Proof. unfold SML. step parseMapLoop_S. all: idtac "SML". Show. Abort.
 End Main.
